@@ -5,7 +5,8 @@
                           LoadKnowledgeBaseFromReader(overwrite)},
                           KnowledgeBase.{AddRuleEntry, RemoveRuleEntry, Clone}
    ast/Grl.go             Grl.ReceiveRuleEntry (duplicate inside one resource)
-   builder/RuleBuilder.go BuildRuleFromResource (a rejected resource is NOT rolled back)
+   builder/RuleBuilder.go BuildRuleFromResource (KnowledgeBase.Checkpoint before the walk, restore() on error:
+                          a resource is loaded completely or not at all)
    ast/RuleEntry.go       Clone (Retracted := false, Deleted copied)
    engine/GruleEngine.go  the part of ExecuteWithContext / FetchMatchingRules that
                           reads Retracted / Deleted (guards come from the generated
@@ -18,7 +19,8 @@
    removes from the running instance through a fact method).
 
    The code is modelled as it is:
-     * a rejected resource still adds its acceptable rules (D10b);
+     * GetKnowledgeBase creates the (empty) knowledge base of a key before the resource is judged, so a rejected
+       resource on a new key leaves an empty knowledge base behind;
      * the Deleted flag is not part of the stored stream, so store+load
        (overwrite) clears it (D8);
      * uuid.New() is modelled by a counter: tombstone n is "Deleted_" followed by
@@ -63,7 +65,8 @@ Fixpoint grl_collect (rs : list rule) (acc : list rule) (err : bool) : list rule
                 else grl_collect rs' (acc ++ [r])%list err
   end.
 
-(* ExitGrl: KnowledgeBase.AddRuleEntry for every collected rule; a refused rule is an error, the others are added *)
+(* ExitGrl: KnowledgeBase.AddRuleEntry for every collected rule; a refused rule is an error, the others are added
+   (to the map that restore() throws away when there was an error) *)
 Fixpoint add_all (rs : list rule) (es : kb) (err : bool) : kb * bool :=
   match rs with
   | [] => (es, err)
@@ -71,8 +74,12 @@ Fixpoint add_all (rs : list rule) (es : kb) (err : bool) : kb * bool :=
                 else add_all rs' (es ++ [mk_entry r])%list err
   end.
 
-Definition build_kb (rs : list rule) (es : kb) : kb * bool :=
+(* Checkpoint() ... restore(): with an error the rule entries are the ones remembered before the walk *)
+Definition walk_kb (rs : list rule) (es : kb) : kb * bool :=
   let '(g, e1) := grl_collect rs [] false in add_all g es e1.
+Definition build_kb (rs : list rule) (es : kb) : kb * bool :=
+  let '(es', err) := walk_kb rs es in
+  if err then (es, true) else (es', false).
 
 (* ---- RemoveRuleEntry (library level and instance level do the same to the map) ---- *)
 Definition tombstone (t : string) (x : lentry) : lentry :=
